@@ -550,6 +550,19 @@ func (f *r2sibFunc) normLocal(o *types.Var, id *ast.Ident, depth int) string {
 		}
 		return "elem(" + base + ")"
 	case r2dDeclOnly:
+		// `var body T` filled by a single assignment elsewhere (typically inside a closure handed to a helper:
+		// withLoop(func() { body = self.block(…) })): that assignment names the role
+		var others []r2sibDef
+		for _, x := range ds {
+			if x.pos != d.pos {
+				others = append(others, x)
+			}
+		}
+		if len(others) == 1 && others[0].kind == r2dAssign && others[0].n == 1 {
+			if _, isCall := ast.Unparen(others[0].rhs).(*ast.CallExpr); isCall {
+				return f.normD(others[0].rhs, depth+1)
+			}
+		}
 		return "local(" + o.Name() + ")"
 	case r2dAssign:
 		rhs := ast.Unparen(d.rhs)
